@@ -60,6 +60,58 @@ def _work(job):
     return res
 
 
+def _child(job, conn):
+    try:
+        conn.send(_work(job))
+    finally:
+        conn.close()
+
+
+def _killed(job, why):
+    prop, hname, idx, tier, seed, _ = job
+    return dict(property=prop, harness=hname, params={"_idx": idx}, tier=tier, paths=0, paths_nontrivial=0,
+                exhaustive=False, aborted=[why], obligations=0, discharged=0, trivial=0, inconclusive=[],
+                violations=[], known=[], harness_errors=[], queries=0, solver_s=0.0, unknown_branches=0,
+                hash_ambiguous=0, canary=None, selftest=None, functions=[], samples=[], notes=[why], bounds="",
+                stubs=[], outside=[], infeasible_paths=0, wall_s=0.0)
+
+
+def _schedule(jobs, nproc, hard_s):
+    """One forked process per harness instance, at most nproc at a time, each under a hard wall-clock limit
+    (a solver call that ignores its timeout must not hang the check; a killed instance is inconclusive)."""
+    ctx = mp.get_context("fork")
+    pending = list(enumerate(jobs))
+    running = {}
+    results = [None] * len(jobs)
+    while pending or running:
+        while pending and len(running) < max(1, nproc):
+            i, job = pending.pop(0)
+            pc, cc = ctx.Pipe(duplex=False)
+            p = ctx.Process(target=_child, args=(job, cc), daemon=True)
+            p.start()
+            cc.close()
+            running[i] = (p, pc, time.time(), job)
+        time.sleep(0.05)
+        for i in list(running):
+            p, pc, t0, job = running[i]
+            if pc.poll():
+                try:
+                    results[i] = pc.recv()
+                except EOFError:
+                    results[i] = _killed(job, "worker died without an answer")
+                p.join(5)
+                del running[i]
+            elif not p.is_alive():
+                results[i] = _killed(job, "worker died without an answer")
+                del running[i]
+            elif time.time() - t0 > hard_s:
+                p.kill()
+                p.join(5)
+                results[i] = _killed(job, "instance killed after %ds wall clock (inconclusive)" % hard_s)
+                del running[i]
+    return results
+
+
 def replay(prop, path):
     _init_armi()
     from symx import engine
@@ -126,12 +178,7 @@ def main(argv=None):
         inst = h.instances.get(tier, h.instances.get("quick"))
         for i in range(len(inst)):
             jobs.append((a.prop, h.name, i, tier, seed, replay_dir))
-    ctx = mp.get_context("fork")
-    if a.j <= 1 or len(jobs) == 1:
-        results = [_work(j) for j in jobs]
-    else:
-        with ctx.Pool(min(a.j, len(jobs)), maxtasksperchild=1) as pool:
-            results = pool.map(_work, jobs, chunksize=1)
+    results = _schedule(jobs, a.j, hard_s=(600 if tier == "quick" else 3600))
     from symx import report
 
     code = report.finish(a.prop, tier, seed, results, time.time() - t0, write=not (a.no_evidence or a.only))
